@@ -99,10 +99,11 @@ func genEvent(tp *sim.Tape, m *Model, f *Fixture, focus string) Ev {
 		case PhReady:
 			return Ev{Kind: EvStart, Pid: tp.Choose(n, "pid")}
 		case PhSigning:
+			late := tp.Choose(8, "lateAnswer?") == 0 // an answer that arrives more than a week later
 			if tp.Choose(5, "errOrSig") == 0 {
-				return Ev{Kind: EvErrSign, Pid: missing(m.Conf | m.Failed), Var: tp.Choose(8, "errText")}
+				return Ev{Kind: EvErrSign, Pid: missing(m.Conf | m.Failed), Var: tp.Choose(8, "errText"), Late: late}
 			}
-			return Ev{Kind: EvPartial, Pid: missing(m.Conf | m.Failed)}
+			return Ev{Kind: EvPartial, Pid: missing(m.Conf | m.Failed), Late: late}
 		}
 	}
 	// anything
@@ -134,7 +135,7 @@ func genEvent(tp *sim.Tape, m *Model, f *Fixture, focus string) Ev {
 			e.Batch = []int{0, 0, 1, 1, 2}[tp.Choose(5, "batchRef")]
 		}
 	}
-	if e.Kind != EvInit && e.Kind != EvStart && e.Kind != EvPartial && e.Kind != EvErrSign && tp.Choose(8, "late?") == 0 {
+	if e.Kind != EvInit && e.Kind != EvStart && tp.Choose(8, "late?") == 0 {
 		e.Late = true
 	}
 	if tp.Choose(10, "empty?") == 0 && (e.Kind == EvCommit || e.Kind == EvDeal || e.Kind == EvResponse || e.Kind == EvKey || e.Kind == EvPartial || e.Kind == EvStart) {
